@@ -301,6 +301,20 @@ theorem dumps_spec (p : Packet) :
     rw [List.length_append, p32be_overflow _ (by omega)]
     rfl
 
+/-- `dumpsAll` (used below) is literally `b"".join(p.dumps() for p in ps)` -/
+theorem dumpsAll_is_concat (ps : List Packet) :
+    dumpsAll ps = (ps.mapM dumps).map List.flatten := by
+  induction ps with
+  | nil => rfl
+  | cons p ps ih =>
+    rw [dumpsAll, ih, List.mapM_cons]
+    cases dumps p with
+    | error e => rfl
+    | ok b =>
+      cases List.mapM dumps ps with
+      | error e => rfl
+      | ok bs => rfl
+
 /-- the generator's loop terminates: every yielded packet accounts for at least 4 consumed bytes -/
 theorem client_packets_bounded (data : Bytes) : 4 * (iterClientPackets data).1.length ≤ data.length + 3 := by
   induction data using iterClientPackets.induct with
@@ -330,8 +344,9 @@ theorem client_frames_roundtrip_append (ps : List Packet) (more : Bytes)
     obtain ⟨bs, hbs, hit⟩ := ih (fun q hq => hwf q (by simp [hq]))
     have hd := dumps_ok p (by omega)
     refine ⟨toBytesU .big 4 (p.ciphertext.length + 16) ++ (p.ciphertext ++ p.signature) ++ bs, ?_, ?_⟩
-    · simp only [dumpsAll, hd, hbs, hs]
-      simp [Except.map]
+    · rw [hs] at hd
+      rw [dumpsAll, hd, hbs]
+      simp only [Except.map, Except.bind]
     · have hstep := iterClientStep_frame p.ciphertext p.signature (bs ++ more) hs hl
       have hne : toBytesU .big 4 (p.ciphertext.length + 16) ++ (p.ciphertext ++ p.signature) ++ (bs ++ more) ≠ [] := by
         intro h0
@@ -438,5 +453,22 @@ example : iterClientStep ([0, 0, 0, 17, 0xaa] ++ List.replicate 16 0xbb ++ [1, 2
 example : iterClientPackets [0, 0, 0, 5, 1, 2, 3] = ([⟨[1, 2, 3], []⟩], none) :=
   client_size_below_16 [0, 0, 0, 5] [1, 2, 3] rfl (by decide)
 example : iterServerPacket (some [1, 2, 3]) = [⟨[1, 2, 3], []⟩] := by decide
+example : iterServerPacket (some ([9] ++ List.replicate 16 0xcc)) = [⟨[9], List.replicate 16 0xcc⟩] := by decide
+/-- the hypotheses of `client_frames_roundtrip` hold for a concrete two-packet stream (one empty ciphertext) … -/
+example : ∀ p ∈ [(⟨[0xaa], List.replicate 16 0xbb⟩ : Packet), ⟨[], List.replicate 16 0xcc⟩],
+    p.signature.length = 16 ∧ p.ciphertext.length + 16 < 2 ^ 32 := by decide
+/-- … whose concatenated frames are these 41 bytes … -/
+example : dumpsAll [⟨[0xaa], List.replicate 16 0xbb⟩, ⟨[], List.replicate 16 0xcc⟩] =
+    .ok ([0, 0, 0, 17, 0xaa] ++ List.replicate 16 0xbb ++ [0, 0, 0, 16] ++ List.replicate 16 0xcc) := by decide
+/-- … and they are split back exactly. -/
+example : iterClient (some ([0, 0, 0, 17, 0xaa] ++ List.replicate 16 0xbb ++ [0, 0, 0, 16] ++ List.replicate 16 0xcc)) =
+    ([⟨[0xaa], List.replicate 16 0xbb⟩, ⟨[], List.replicate 16 0xcc⟩], none) := by
+  obtain ⟨bs, h1, h2⟩ := client_frames_roundtrip [⟨[0xaa], List.replicate 16 0xbb⟩, ⟨[], List.replicate 16 0xcc⟩] (by decide)
+  have h3 : dumpsAll [⟨[0xaa], List.replicate 16 0xbb⟩, ⟨[], List.replicate 16 0xcc⟩] =
+      .ok ([0, 0, 0, 17, 0xaa] ++ List.replicate 16 0xbb ++ [0, 0, 0, 16] ++ List.replicate 16 0xcc) := by decide
+  rw [h3] at h1
+  cases h1
+  exact h2
+example : iterClientPackets [0, 0, 1] = ([], some .eofError) := client_short_header _ (by decide) (by decide)
 
 end C05
